@@ -583,7 +583,7 @@ _PAIRS_TRUSTED = [
 
 PROPS["C05"] = {
     "modules": C05_EVAL_MODULES + C17_MODULES, "theorems": C05_EVAL_THEOREMS + ["C17.dispatch_eq"],
-    "harness": "C05", "driver": "C05", "monitor": False,
+    "harness": "C05", "driver": "C05", "monitor": False, "extra_ties": [("EVAL", "EVAL")],
     "rule": "style trees of 2-12 nodes as for C04, with 1-3 extra non-root nodes forced to display:none (keeping their subtrees, "
             "half of them with explicit grid-row/grid-column lines -5..6 / spans, some absolute, some with sizes and margins); for "
             "EVERY non-root display:none node h: tree B = A with h's subtree replaced by a bare Style{display:None,..DEFAULT} leaf. "
@@ -603,7 +603,7 @@ PROPS["C05"] = {
 
 PROPS["C06"] = {
     "modules": C06_EVAL_MODULES, "theorems": C06_EVAL_THEOREMS,
-    "harness": "C06", "driver": "C06", "monitor": False,
+    "harness": "C06", "driver": "C06", "monitor": False, "extra_ties": [("EVAL", "EVAL")],
     "rule": "style trees of 2-12 nodes as for C04, with 1-3 extra non-root nodes forced to position:absolute (random insets incl. "
             "percentages and negatives, a quarter with explicit grid lines, a quarter with auto lines, a third with large sizes); for "
             "EVERY non-root absolute node a with display != none: tree B = A with a's subtree replaced by a bare "
